@@ -35,6 +35,7 @@ def parseFn (s : String) : Option Fn :=
       | "cnt" => some Script.cnt
       | "sel" => some Script.sel
       | "glen" => some Script.glen
+      | "big" => some Script.big
       | _ => none
     pure (.func sc (u == "1"))
   | _ => none
@@ -81,7 +82,7 @@ def fnRender : Fn → String
   | .not => "not" | .and => "and" | .or => "or" | .xor => "xor"
   | .override v => "ovr~" ++ v.render
   | .compare lo hi => "cmp~" ++ ratRender lo ++ "~" ++ ratRender hi
-  | .func f u => "f~" ++ (match f with | .cnt => "cnt" | .sel => "sel" | .glen => "glen") ++ "~" ++ (if u then "1" else "0")
+  | .func f u => "f~" ++ (match f with | .cnt => "cnt" | .sel => "sel" | .glen => "glen" | .big => "big") ++ "~" ++ (if u then "1" else "0")
 
 /-- the call a block's function receives (FuncBlock and its subclasses And / Or / Xor, which pass
     `unpack=False`), and what the scripted function makes of it -/
@@ -143,7 +144,7 @@ def handle (d : DState) : List String → DState × String
     | _, _ => (d, "bad-op")
   | ["ctor", "func", f, u] =>
     let sc := match f with
-      | "cnt" => some Script.cnt | "sel" => some Script.sel | "glen" => some Script.glen | _ => none
+      | "cnt" => some Script.cnt | "sel" => some Script.sel | "glen" => some Script.glen | "big" => some Script.big | _ => none
     let un := match u with
       | "-" => some none | "1" => some (some true) | "0" => some (some false) | _ => none
     match sc, un with
